@@ -2,6 +2,8 @@ package harness
 
 import (
 	"fmt"
+	"os"
+	"strconv"
 
 	"verif/vsched"
 )
@@ -41,7 +43,12 @@ func c01Cells(tier string) []Cell {
 					}
 
 					if tier == "thorough" {
-						// three threads, two keys sharing the key-lock map
+						// the two-thread program with ALL interleavings (unbounded, happens-before cached) ...
+						u := c
+						u.Tags = []string{"stats", "log", "unbounded"}
+						cells = append(cells, Cell{ID: u.ID()})
+
+						// ... and three threads on two keys sharing the key-lock map, preemption bound 2
 						c.Init = init + "S"
 						c.FailC = "00"
 						c.Threads = [][]GOp{{{Key: 0}, {Key: 0}}, {{Key: 0}, {Key: 1}}, {{Key: 1}, {Key: 0}}}
@@ -68,10 +75,21 @@ func c01Cells(tier string) []Cell {
 
 func c01Run(c Cell, env *Env) CellResult {
 	cfg := parseFCfg(c.ID)
-	opt := vsched.Options{PreemptionBound: 2, EnvBound: 0}
+	opt := vsched.Options{PreemptionBound: 2, EnvBound: 0, HBCache: true}
 
 	if env.Thorough() {
-		opt = vsched.Options{PreemptionBound: 3, EnvBound: 0, MaxExecs: 400000}
+		opt = vsched.Options{PreemptionBound: 2, EnvBound: 0, HBCache: true, MaxExecs: 2000000}
+
+		for _, t := range cfg.Tags {
+			if t == "unbounded" {
+				opt.PreemptionBound = -1
+			}
+		}
+	}
+
+	if v := os.Getenv("VERIF_BOUND"); v != "" {
+		b, _ := strconv.Atoi(v)
+		opt.PreemptionBound = b
 	}
 
 	return exploreF(cfg, env, opt, nil, func(h *fh, r *vsched.Result) []Violation {
@@ -94,7 +112,7 @@ func init() {
 		Assumptions: []string{
 			"scheduling points are every sync/atomic/channel/clock operation of the instrumented package plus the in-flight point inside the harness builder; code between two points runs atomically",
 			"janitor/items-count daemons are not started; their effect is irrelevant to key locks",
-			"quick: 2 threads (2+1 Gets on one key), preemption bound 2; thorough: 3 threads on 2 keys, preemption bound 3, capped at 400k executions per cell",
+			"quick: 2 threads (2+1 Gets on one key) and the buffer-reuse program, preemption bound 2, 8 configurations; thorough: all 32 configurations, the 2-thread program with ALL interleavings (unbounded, happens-before cached), 3 threads x 2 Gets on 2 keys and the buffer-reuse program with preemption bound 2 (safety cap 2M executions per cell, reported if hit)",
 		},
 	})
 }
